@@ -619,8 +619,11 @@ func runC10(c *Ctx) {
 			if pk == nil || cal.Pkg != pk {
 				return
 			}
-			for _, p := range cal.Params {
-				if isYieldType(p.Type()) {
+			// only helpers that are handed the yield function ITSELF share its polarity; a wrapper closure
+			// handed to a helper with its own predicate is judged at the call (wrappedYield)
+			ysHere := yieldValues(f)
+			for ai, p := range cal.Params {
+				if isYieldType(p.Type()) && ai < len(call.Call.Args) && ysHere[call.Call.Args[ai]] {
 					seenY[cal] = true
 					yf = append(yf, cal)
 					return
@@ -713,10 +716,95 @@ func isFreshValue(v ssa.Value) bool {
 	switch x := v.(type) {
 	case *ssa.Alloc:
 		return true
+	case *ssa.Parameter:
+		// a parameter of an unexported function that every call site in its package gives a fresh object
+		return paramAlwaysFresh(x)
 	case *ssa.Call:
 		if cal := staticCallee(&x.Call); cal != nil && cal.Blocks != nil {
 			return returnsFresh(cal, 0)
 		}
 	}
 	return false
+}
+
+var paramFreshMemo = map[*ssa.Parameter]bool{}
+
+// paramAlwaysFresh: p belongs to an unexported function and at each of its (static, same-package) call sites
+// the argument is an allocation made by the caller or the result of a function returning fresh objects; the
+// function's address is not taken.
+func paramAlwaysFresh(p *ssa.Parameter) bool {
+	if v, ok := paramFreshMemo[p]; ok {
+		return v
+	}
+	paramFreshMemo[p] = false
+	fn := p.Parent()
+	if fn == nil || fn.Pkg == nil || fn.Object() == nil || fn.Object().Exported() {
+		return false
+	}
+	idx := -1
+	for i, q := range fn.Params {
+		if q == p {
+			idx = i
+		}
+	}
+	if idx < 0 {
+		return false
+	}
+	sites, ok := 0, true
+	var scan func(f *ssa.Function)
+	scan = func(f *ssa.Function) {
+		if f == nil || f.Blocks == nil {
+			return
+		}
+		allInstrs(f, func(in ssa.Instruction) {
+			for _, op := range in.Operands(nil) {
+				if *op == nil {
+					continue
+				}
+				if g, isFn := (*op).(*ssa.Function); isFn && origin(g) == origin(fn) {
+					ci, isCall := in.(ssa.CallInstruction)
+					if !isCall || ci.Common().Value != *op {
+						ok = false // address taken
+					}
+				}
+			}
+			ci, isCall := in.(ssa.CallInstruction)
+			if !isCall || origin(staticCallee(ci.Common())) != origin(fn) {
+				return
+			}
+			sites++
+			args := ci.Common().Args
+			if idx >= len(args) {
+				ok = false
+				return
+			}
+			switch a := args[idx].(type) {
+			case *ssa.Alloc:
+			case *ssa.Call:
+				if cal := staticCallee(&a.Call); cal == nil || cal.Blocks == nil || !returnsFresh(cal, 0) {
+					ok = false
+				}
+			default:
+				ok = false
+			}
+		})
+		for _, a := range f.AnonFuncs {
+			scan(a)
+		}
+	}
+	for _, mem := range fn.Pkg.Members {
+		switch m := mem.(type) {
+		case *ssa.Function:
+			scan(m)
+		case *ssa.Type:
+			if n, isNamed := m.Type().(*types.Named); isNamed {
+				for i := 0; i < n.NumMethods(); i++ {
+					scan(fn.Prog.FuncValue(n.Method(i)))
+				}
+			}
+		}
+	}
+	res := ok && sites > 0
+	paramFreshMemo[p] = res
+	return res
 }
